@@ -278,6 +278,17 @@ pub fn preset_graph(rng : &mut Rng, shape : &str) -> Graph
             let n = names(rng, 2 * count);
             let l = leafs(rng, count);
             let mut rules = vec![];
+            if rng.chance(1, 3)
+            {
+                // one rule copying two leaves into two targets (cp a b ; cp c d), with a dependent of each
+                let mut r = make_rule(rng, vec![n[0].clone(), n[1].clone()], vec![l[0].clone(), l[1].clone()], &mut salt);
+                r.outs[0].raw = true; r.outs[0].mask = 1;
+                r.outs[1].raw = true; r.outs[1].mask = 2;
+                rules.push(r);
+                rules.push(make_rule(rng, vec![n[count].clone()], vec![n[0].clone()], &mut salt));
+                rules.push(make_rule(rng, vec![n[count + 1].clone()], vec![n[1].clone()], &mut salt));
+                return graph_from(shape, rules, rng);
+            }
             for i in 0..count
             {
                 let mut r = make_rule(rng, vec![n[i].clone()], vec![l[i].clone()], &mut salt);
